@@ -157,9 +157,10 @@ def case_1ax(W, cfg):
                 fill = gfill if fill is None else fill
                 if to is not None:
                     kw["to"] = to
-                for op in OPS:
+                for oi_, op in enumerate(OPS):
                     lab = "%s:%s->%s:%s" % (op, frm, to, cr)
-                    r = getattr(grid, op)(da, "X", **kw)
+                    # values never depend on keep_coords (alternated over the operators)
+                    r = getattr(grid, op)(da, "X", **kw, **({"keep_coords": True} if (oi_ + N) % 2 else {}))
                     exp_dims = tuple(dims[eff_to] if d == dims[frm] else d for d in order)
                     W.require("dims:" + lab, tuple(r.dims) == exp_dims, "dims %s want %s" % (r.dims, exp_dims))
                     if tuple(r.dims) != exp_dims:
